@@ -11,6 +11,30 @@ def is_ptr(mod, t):
     return t is not None and mod.resolve(t)[0] == 'p'
 
 
+def agg_with_ptr(mod, t, depth=0):
+    """a first-class aggregate (small struct returned/passed by value) that contains a pointer"""
+    try:
+        rt = mod.resolve(t)
+    except Exception:
+        return False
+    if depth > 4:
+        return False
+    if rt[0] == 's':
+        return any(is_ptr(mod, e) or agg_with_ptr(mod, e, depth + 1) for e in rt[1])
+    if rt[0] == 'a':
+        return is_ptr(mod, rt[2]) or agg_with_ptr(mod, rt[2], depth + 1)
+    return False
+
+
+def tracked(mod, t):
+    return is_ptr(mod, t) or agg_with_ptr(mod, t)
+
+
+def decl_align(mod, t):
+    """alignment the declared type of a tracked value promises (aggregates promise nothing themselves)"""
+    return abi_align(mod, pointee(mod, t)) if is_ptr(mod, t) else 1
+
+
 def pointee(mod, t):
     return mod.resolve(t)[1]
 
@@ -189,6 +213,8 @@ class PtrFacts(object):
                 no = None
                 if op == 'call' and self._apply_out_summary(ins):
                     changed = True
+                if op == 'call' and self._copy_slots(ins):
+                    changed = True
                 if op == 'alloca':
                     na = ins.x['align'] or abi_align(mod, ins.x['aty'])
                     no = frozenset(['alloca:' + d])
@@ -207,7 +233,7 @@ class PtrFacts(object):
                     co = self.gep_const(ins.x['bty'], ins.args[1:])
                     self.off[d] = bo + co if (bo is not None and co is not None and no is not None and len(no) == 1) else None
                 elif op == 'load':
-                    if is_ptr(mod, ins.ty):
+                    if tracked(mod, ins.ty):
                         src_o = self.val_origin(ins.args[0])
                         if src_o is None:
                             continue
@@ -228,7 +254,7 @@ class PtrFacts(object):
                             self.off[d] = o1 if o1 != 'many' else None
                         if others:
                             # a pointer stored in caller-visible memory: trust its declared type
-                            da = abi_align(mod, pointee(mod, ins.ty))
+                            da = decl_align(mod, ins.ty)
                             aa = da if aa is None else min(aa, da)
                             for o in others:
                                 if o.startswith('global:') or o in ('gloaded',):
@@ -242,7 +268,7 @@ class PtrFacts(object):
                             no = frozenset(oo)
                 elif op == 'store':
                     v = ins.args[0]
-                    if is_ptr(mod, v[0]):
+                    if tracked(mod, v[0]):
                         dst_o = self.val_origin(ins.args[1])
                         va = self.val_align(v)
                         vo = self.val_origin(v)
@@ -266,7 +292,7 @@ class PtrFacts(object):
                                         changed = True
                     continue
                 elif op in ('phi', 'select'):
-                    if is_ptr(mod, ins.ty):
+                    if tracked(mod, ins.ty):
                         vals = [tv for (tv, _) in ins.x['incoming']] if op == 'phi' else ins.args[1:]
                         aa = None
                         oo = set()
@@ -280,8 +306,8 @@ class PtrFacts(object):
                         if aa is not None:
                             na, no = aa, frozenset(oo)
                 elif op == 'call':
-                    if d is not None and is_ptr(mod, ins.ty):
-                        na = abi_align(mod, pointee(mod, ins.ty))
+                    if d is not None and tracked(mod, ins.ty):
+                        na = decl_align(mod, ins.ty)
                         callee = ins.x['callee']
                         name = callee[1] if callee[0] == 'g' else None
                         oo = set()
@@ -304,6 +330,28 @@ class PtrFacts(object):
                         else:
                             oo.add('unknown')
                         no = frozenset(oo)
+                elif op in ('insertvalue', 'extractvalue') and ins.args:
+                    aty = ins.args[0][0]
+                    if not agg_with_ptr(mod, aty):
+                        continue
+                    base_o = self.val_origin(ins.args[0]) if ins.args[0][1][0] == 'r' else frozenset()
+                    if op == 'insertvalue':
+                        vo = self.val_origin(ins.args[1]) if len(ins.args) > 1 and tracked(mod, ins.args[1][0]) else frozenset()
+                        no = frozenset(set(base_o or ()) | set(vo or ()))
+                        na = 1
+                    else:
+                        # type of the extracted member
+                        fty = aty
+                        try:
+                            for ix in ins.x.get('indices', ()):
+                                rt = mod.resolve(fty)
+                                fty = rt[1][ix] if rt[0] == 's' else rt[2]
+                        except Exception:
+                            fty = None
+                        if fty is None or not tracked(mod, fty):
+                            continue
+                        no = frozenset(base_o) if base_o else frozenset(['loaded'])
+                        na = decl_align(mod, fty)
                 elif op == 'inttoptr':
                     na = 1
                     no = frozenset(['unknown'])
@@ -321,6 +369,47 @@ class PtrFacts(object):
                     self.align[d] = na
                     self.origin[d] = no
                     changed = True
+
+    def _copy_slots(self, ins):
+        """memcpy/memmove from one stack object to another (how an aggregate temporary is copied into a variable)
+        carries the pointers stored in the source slots along"""
+        callee = ins.x['callee']
+        name = callee[1] if callee[0] == 'g' else ''
+        if not (name.startswith('llvm.memcpy') or name.startswith('llvm.memmove') or name in ('memcpy', 'memmove')):
+            return False
+        if len(ins.args) < 3:
+            return False
+        do, so = self.val_origin(ins.args[0]), self.val_origin(ins.args[1])
+        if not do or not so or len(do) != 1 or len(so) != 1:
+            return False
+        (d1,), (s1,) = tuple(do), tuple(so)
+        if not d1.startswith('alloca:') or not s1.startswith('alloca:'):
+            return False
+        doff, soff = self.val_off(ins.args[0]), self.val_off(ins.args[1])
+        n = ins.args[2][1][1] if ins.args[2][1][0] == 'c' else None
+        ch = False
+        for (sl, off) in list(self.slot_align):
+            if sl != s1[7:]:
+                continue
+            if off is None or soff is None or doff is None:
+                key = (d1[7:], None)
+            elif n is not None and not (soff <= off < soff + n):
+                continue
+            else:
+                key = (d1[7:], doff + off - soff)
+            a, o = self.slot_align[(sl, off)], self.slot_origin.get((sl, off), set())
+            olda, oldo = self.slot_align.get(key), self.slot_origin.get(key, set())
+            newa = a if olda is None else min(olda, a)
+            newo = oldo | o
+            so_ = self.slot_off.get((sl, off), 'many')
+            if key in self.slot_off and self.slot_off[key] != so_:
+                so_ = 'many'
+            if newa != olda or newo != oldo or self.slot_off.get(key) != so_:
+                self.slot_align[key] = newa
+                self.slot_origin[key] = newo
+                self.slot_off[key] = so_
+                ch = True
+        return ch
 
     def _apply_out_summary(self, ins):
         """A callee that stores pointers through one of its pointer parameters (an out-structure filled with
@@ -366,6 +455,67 @@ class PtrFacts(object):
         their minimal guaranteed alignment)}"""
         out = {}
         pidx = {pn: k for k, (pt, pn, _) in enumerate(self.fn.params)}
+        def conv(vo):
+            srcs = set()
+            for x in vo:
+                if x.startswith('param:'):
+                    srcs.add('param#%d' % pidx[x[6:]])
+                elif x.startswith('alloca:'):
+                    srcs.add('unknown')
+                else:
+                    srcs.add(x)
+            return srcs
+        # an out-parameter handed on to a callee that fills it (sret forwarded, `fill(out, ...)`)
+        for ins in self.fn.instrs():
+            if ins.op != 'call' or ins.x['callee'][0] != 'g':
+                continue
+            couts = self.summaries.get(('out', ins.x['callee'][1]))
+            if not couts:
+                continue
+            for (kd, koff), (csrcs, cal) in couts.items():
+                if kd >= len(ins.args):
+                    continue
+                do = self.val_origin(ins.args[kd]) or frozenset()
+                if len(do) != 1:
+                    continue
+                (d1,) = tuple(do)
+                if not d1.startswith('param:'):
+                    continue
+                doff = self.val_off(ins.args[kd])
+                ko = (doff + koff) if (doff is not None and koff is not None) else None
+                mapped = set()
+                for x in csrcs:
+                    if x.startswith('param#'):
+                        j = int(x[6:])
+                        if j < len(ins.args):
+                            mapped |= conv(self.val_origin(ins.args[j]) or frozenset(['unknown']))
+                    else:
+                        mapped.add(x)
+                k = (pidx[d1[6:]], ko)
+                old = out.get(k)
+                out[k] = (mapped | (old[0] if old else set()), min(cal, old[1]) if old else cal)
+        # an aggregate built in a local and copied out through the parameter (`*out = local;` / sret)
+        for ins in self.fn.instrs():
+            if ins.op != 'call' or ins.x['callee'][0] != 'g' or len(ins.args) < 3:
+                continue
+            nm = ins.x['callee'][1]
+            if not (nm.startswith('llvm.memcpy') or nm.startswith('llvm.memmove') or nm in ('memcpy', 'memmove')):
+                continue
+            do, so = self.val_origin(ins.args[0]) or frozenset(), self.val_origin(ins.args[1]) or frozenset()
+            if len(do) != 1 or len(so) != 1:
+                continue
+            (d1,), (s1,) = tuple(do), tuple(so)
+            if not d1.startswith('param:') or not s1.startswith('alloca:'):
+                continue
+            doff, soff = self.val_off(ins.args[0]), self.val_off(ins.args[1])
+            for (sl, off), a in list(self.slot_align.items()):
+                if sl != s1[7:]:
+                    continue
+                ko = (doff + off - soff) if None not in (doff, soff, off) else None
+                k = (pidx[d1[6:]], ko)
+                old = out.get(k)
+                srcs = conv(self.slot_origin.get((sl, off), set()))
+                out[k] = (srcs | (old[0] if old else set()), min(a, old[1]) if old else a)
         for ins in self.fn.instrs():
             if ins.op != 'store' or not is_ptr(self.mod, ins.args[0][0]):
                 continue
@@ -396,7 +546,7 @@ class PtrFacts(object):
         out = set()
         pidx = {pn: k for k, (pt, pn, _) in enumerate(self.fn.params)}
         for ins in self.fn.instrs():
-            if ins.op == 'ret' and ins.args and is_ptr(self.mod, ins.args[0][0]):
+            if ins.op == 'ret' and ins.args and tracked(self.mod, ins.args[0][0]):
                 o = self.val_origin(ins.args[0]) or frozenset(['unknown'])
                 for x in o:
                     if x.startswith('param:'):
